@@ -7,6 +7,7 @@ from ..astutil import (walk_shallow, dotted, call_attr, short, src, stmt_of, nam
                        compare_parts, strip_not, const, bool_operands)
 from ..loader import AnalysisError
 from .. import rules as T
+from .. import regexast as RX
 from . import c05
 
 ID = 'C20'
@@ -304,6 +305,27 @@ def check(P, R):
         R.ob('C20.e', he_, he_.node, ok, text=f'html_escape covers {sorted(chars)}', detail='' if ok else f'html_escape misses {sorted({"&", "<", ">", chr(34), chr(39)} - chars)}')
         ok = bool(order) and order[0] == '&'
         R.ob('C20.e', he_, inner or he_.node, ok, text='& is replaced first', detail='' if ok else 'replacing & after the others double-escapes / un-escapes entities')
+    # a raw return of the argument is only allowed when a *search* over the whole string found none of the special characters
+    for r_ in [n for n in walk_shallow(he_.node) if isinstance(n, ast.Return) and isinstance(n.value, ast.Name) and n.value.id == he_.params[0]]:
+        rn_ = he_.cfg.node_of_stmt(r_)[0]
+        if not all(d_.kind == 'param' for d_ in he_.rd.at(rn_, he_.params[0])):
+            continue
+        proven = False
+        for (e_, holds_, _) in T.guard_atoms(he_, rn_):
+            if isinstance(e_, ast.Call) and call_attr(e_) == 'search' and not holds_ and e_.args and src(e_.args[0]) == he_.params[0]:
+                pat_ = T.module_value(he_, e_.func.value)
+                lit_ = RX.pattern_literal(RX.compiled_pattern_arg(pat_)) if pat_ is not None else None
+                if lit_:
+                    tree_ = RX.parse(lit_[0])
+                    items_ = RX._items(tree_) if tree_ is not None else []
+                    if len(items_) == 1 and str(items_[0][0]) == 'IN' and {chr(c_) for c_ in RX.class_chars(items_[0][1])} >= {'&', '<', '>', '"', "'"}:
+                        proven = True
+        R.ob('C20.e', he_, r_, proven, text=f'{short(r_)} (unescaped) only when a search found no special character', detail='' if proven else
+             'the argument is returned unescaped on a path that does not establish the absence of & < > " \' in the whole string (e.g. a match() at position 0 only): '
+             'PATH_INFO starts with "/", so the last-resort page echoes the path raw', why='request-controlled text appears only HTML-escaped', key_extra='raw-return')
+    # the page (HTML or JSON) is rendered from the request it answers: re-initialisation precedes every exit of _handle
+    from . import c09 as _c09
+    _c09.check_init_dominance(P, R, 'C20.e')
     # JSON branch
     de = P.func(f'{OM}:Ombott.default_error_handler')
     gd = de.cfg
